@@ -841,7 +841,7 @@ func parseExeHeader(src []byte, magic uint, arch, codeStart, codeEnd *int) bool 
 					for i := 0; i < nbEntries; i++ {
 						startEntry := posSection + i*szEntry
 
-						if startEntry+0x28 >= count {
+						if startEntry < 0 || startEntry >= count-0x28 {
 							return false
 						}
 
@@ -866,7 +866,7 @@ func parseExeHeader(src []byte, magic uint, arch, codeStart, codeEnd *int) bool 
 					for i := 0; i < nbEntries; i++ {
 						startEntry := posSection + i*szEntry
 
-						if startEntry+0x18 >= count {
+						if startEntry < 0 || startEntry >= count-0x18 {
 							return false
 						}
 
@@ -896,7 +896,7 @@ func parseExeHeader(src []byte, magic uint, arch, codeStart, codeEnd *int) bool 
 					for i := 0; i < nbEntries; i++ {
 						startEntry := posSection + i*szEntry
 
-						if startEntry+0x28 >= count {
+						if startEntry < 0 || startEntry >= count-0x28 {
 							return false
 						}
 
@@ -921,7 +921,7 @@ func parseExeHeader(src []byte, magic uint, arch, codeStart, codeEnd *int) bool 
 					for i := 0; i < nbEntries; i++ {
 						startEntry := posSection + i*szEntry
 
-						if startEntry+0x18 >= count {
+						if startEntry < 0 || startEntry >= count-0x18 {
 							return false
 						}
 
